@@ -21,15 +21,18 @@ CONSTANTS ListKeys,     \* keys that may be listed as nodes (subset of Nodes)
           MaxEntries, MaxEdgesFirst, MaxEdgesRest
 
 NodeVal(form, k) == IF form \in {2, 4} THEN 100 + k ELSE 0
-EdgeVal(form, a, b) == IF form \in {3, 4} THEN 10 * a + b ELSE 0   \* b-th edge of the a-th entry
+\* b-th edge of the a-th entry, towards t.  Value mode "pos": every listed edge has its own
+\* value; "tgt": repeated edges to the same target carry EQUAL values (exact duplicates)
+EdgeVal(form, vm, a, b, t) == IF form \in {3, 4} THEN (IF vm = "tgt" THEN 10 * a + 5 + t ELSE 10 * a + b) ELSE 0
+HasRepeat(inv) == \E a \in 1..Len(inv) : \E b, c \in 1..Len(inv[a].es) : b # c /\ inv[a].es[b] = inv[a].es[c]
 
 Listed(inv) == {inv[a].k : a \in 1..Len(inv)}
 
-RECURSIVE Collect(_, _, _)
+RECURSIVE Collect(_, _, _, _)
 \* the edges vector: <<source, target, value>> in listing order
-Collect(inv, form, a) ==
+Collect(inv, form, vm, a) ==
   IF a > Len(inv) THEN <<>>
-  ELSE [b \in 1..Len(inv[a].es) |-> <<inv[a].k, inv[a].es[b], EdgeVal(form, a, b)>>] \o Collect(inv, form, a + 1)
+  ELSE [b \in 1..Len(inv[a].es) |-> <<inv[a].k, inv[a].es[b], EdgeVal(form, vm, a, b, inv[a].es[b])>>] \o Collect(inv, form, vm, a + 1)
 
 RECURSIVE ConnectAll(_, _, _, _, _)
 ConnectAll(es, j, listed, o, i) ==
@@ -40,8 +43,8 @@ ConnectAll(es, j, listed, o, i) ==
                   [i EXCEPT ![es[j][2]] = Append(@, <<es[j][1], es[j][3]>>)])
 
 \* the result: [panic = 0, keys, vals, out, inn]  or  [panic = the unlisted key named]
-Denote(inv, form) ==
-  LET es == Collect(inv, form, 1)
+Denote(inv, form, vm) ==
+  LET es == Collect(inv, form, vm, 1)
       r == ConnectAll(es, 1, Listed(inv), [n \in Nodes |-> <<>>], [n \in Nodes |-> <<>>]) IN
   IF r.panic # 0 THEN [panic |-> r.panic]
   ELSE [panic |-> 0, keys |-> Listed(inv), vals |-> [n \in Nodes |-> IF n \in Listed(inv) THEN NodeVal(form, n) ELSE 0],
@@ -53,16 +56,16 @@ IsSubseq(s, t) == LET RECURSIVE M(_, _)
                       M(a, b) == IF a > Len(s) THEN TRUE ELSE IF b > Len(t) THEN FALSE
                                  ELSE IF s[a] = t[b] THEN M(a + 1, b + 1) ELSE M(a, b + 1)
                   IN  M(1, 1)
-ListingOf(inv, form, a) == [b \in 1..Len(inv[a].es) |-> <<inv[a].es[b], EdgeVal(form, a, b)>>]
+ListingOf(inv, form, vm, a) == [b \in 1..Len(inv[a].es) |-> <<inv[a].es[b], EdgeVal(form, vm, a, b, inv[a].es[b])>>]
 BagSeqEq(s, t) == Len(s) = Len(t) /\ \A x \in 1..Len(s) : Cardinality({y \in 1..Len(s) : s[y] = s[x]}) = Cardinality({y \in 1..Len(t) : t[y] = s[x]})
 \* obs: [panic (0 = none, else the key named in the message), keys, vals, out, inn]
-MacroOK(inv, form, obs) ==
+MacroOK(inv, form, vm, obs) ==
   IF UnlistedNamed(inv) # {} THEN obs.panic \in UnlistedNamed(inv)
   ELSE /\ obs.panic = 0
        /\ obs.keys = Listed(inv)
        /\ \A n \in Listed(inv) : obs.vals[n] = NodeVal(form, n)
        \* exactly the listed edges with the listed values (as a bag of <<source, target, value>>)
-       /\ BagSeqEq(Collect(inv, form, 1),
+       /\ BagSeqEq(Collect(inv, form, vm, 1),
                    LET RECURSIVE All(_)
                        All(S) == IF S = {} THEN <<>> ELSE LET n == CHOOSE x \in S : TRUE IN
                                     [b \in 1..Len(obs.out[n]) |-> <<n, obs.out[n][b][1], obs.out[n][b][2]>>] \o All(S \ {n})
@@ -70,6 +73,6 @@ MacroOK(inv, form, obs) ==
        /\ Mirror(obs.out, obs.inn)
        \* each node's edges in listed order
        /\ \A a \in 1..Len(inv) :
-             IF Directed THEN obs.out[inv[a].k] = ListingOf(inv, form, a)
-             ELSE IsSubseq(ListingOf(inv, form, a), obs.out[inv[a].k] \o obs.inn[inv[a].k])
+             IF Directed THEN obs.out[inv[a].k] = ListingOf(inv, form, vm, a)
+             ELSE IsSubseq(ListingOf(inv, form, vm, a), obs.out[inv[a].k] \o obs.inn[inv[a].k])
 =============================================================================
